@@ -954,6 +954,84 @@ async fn c12_small_messages(seed: u64, report: &mut Report) {
     server.shutdown();
 }
 
+/// Raw streaming bodies: the message is a `datacake_rpc::Body` (no rkyv, no checksum trailer), sent through
+/// the by-value API with request headers set on the context; the handler answers with a `Body` as well.
+pub struct RawSvc {
+    seen: Arc<Mutex<Vec<(usize, u32, Option<String>)>>>,
+}
+
+impl RpcService for RawSvc {
+    fn register_handlers(r: &mut ServiceRegistry<Self>) {
+        r.add_handler::<datacake_rpc::Body>();
+    }
+}
+
+#[async_trait]
+impl Handler<datacake_rpc::Body> for RawSvc {
+    type Reply = datacake_rpc::Body;
+    async fn on_message(&self, m: Request<datacake_rpc::Body>) -> Result<datacake_rpc::Body, Status> {
+        let (headers, body) = m.into_parts();
+        let tag = headers.get("x-verif-tag").and_then(|v| v.to_str().ok()).map(|s| s.to_string());
+        let bytes = hyper::body::to_bytes(body.into_inner()).await.map_err(Status::internal)?;
+        self.seen.lock().push((bytes.len(), crc32(&bytes), tag));
+        // the reply: the request's bytes reversed (so that a reply is never mistaken for an echo of a buffer)
+        let mut back = bytes.to_vec();
+        back.reverse();
+        Ok(datacake_rpc::Body::from(back))
+    }
+}
+
+async fn c12_raw_bodies(seed: u64, report: &mut Report) {
+    let addr = free_tcp_addr();
+    let server = match Server::listen(addr).await {
+        Ok(s) => s,
+        Err(e) => {
+            report.run_inconclusive.push(format!("cannot listen on loopback: {e}"));
+            return;
+        },
+    };
+    let seen: Arc<Mutex<Vec<(usize, u32, Option<String>)>>> = Default::default();
+    server.add_service(RawSvc { seen: seen.clone() });
+    let client = RpcClient::<RawSvc>::new(Channel::connect(addr));
+    let mut rng = rng_for(seed, 0xC12, 0xB0D1);
+    let mut sizes: Vec<usize> = BLOB_SIZES.iter().copied().filter(|s| *s <= 1 << 20).collect();
+    for _ in 0..20 {
+        sizes.push(rng.gen_range(0..100_000));
+    }
+    for (k, len) in sizes.into_iter().enumerate() {
+        let mut out = CaseOut::default();
+        let fill: u8 = rng.gen();
+        let bytes: Vec<u8> = (0..len).map(|i| (i as u8).wrapping_mul(13).wrapping_add(fill)).collect();
+        let tag = format!("t{k}-{len}");
+        let ctx = client.create_rpc_context().set_header("x-verif-tag", http::HeaderValue::from_str(&tag).unwrap());
+        match ctx.send_owned(datacake_rpc::Body::from(bytes.clone())).await {
+            Ok(reply) => {
+                let saw = seen.lock().pop();
+                if saw.as_ref().map(|s| (s.0, s.1)) != Some((bytes.len(), crc32(&bytes))) {
+                    out.violate("C12:handler-observed-different-value:raw-body", json!({"sent_len": len, "sent_crc": crc32(&bytes), "handler_saw": format!("{saw:?}")}));
+                } else if saw.as_ref().and_then(|s| s.2.clone()).as_deref() != Some(tag.as_str()) {
+                    out.violate("C12:handler-observed-different-request-header", json!({"sent": tag, "handler_saw": format!("{saw:?}")}));
+                }
+                match hyper::body::to_bytes(reply.into_inner()).await {
+                    Ok(back) => {
+                        let mut want = bytes.clone();
+                        want.reverse();
+                        if back.as_ref() != want.as_slice() {
+                            out.violate("C12:client-observed-different-reply:raw-body", json!({"sent_len": len, "reply_len": back.len()}));
+                        }
+                    },
+                    Err(e) => out.violate("C12:valid-request-failed", json!({"type": "Body", "len": len, "error": format!("reading the reply body: {e}")})),
+                }
+            },
+            Err(e) => out.violate("C12:valid-request-failed", json!({"type": "Body", "len": len, "error": format!("{e:?}")})),
+        }
+        out.count("raw_body_roundtrips", 1);
+        out.nontrivial = Some(hash_of(&("raw-body", len, fill)));
+        report.absorb(out);
+    }
+    server.shutdown();
+}
+
 /// A message with reference-counted fields (rkyv archives the pointee of an `Arc` once per ARCHIVE and
 /// remembers its position by address): two fields may share one pointee, the same `Arc` may travel in
 /// many consecutive messages, and freshly allocated `Arc`s may reuse the address of dropped ones.
@@ -1645,12 +1723,15 @@ pub fn c12(args: &Args) {
     // the same for messages carrying reference-counted fields; current-thread runtime, so that consecutive
     // messages are serialized on ONE thread (per-thread serializer state would carry over)
     block_on_real(0, c12_shared_messages(seed, &mut report));
+    // raw streaming bodies with request headers
+    block_on_real(2, c12_raw_bodies(seed, &mut report));
     block_on_paused(c12_corrupt_replies(&mut report));
     let _ = std::panic::take_hook();
     report.floor("frame_families_completed", C12_FAMILIES as u64);
     report.floor("large_frame_mutants", 10_000);
     report.floor("small_scalar_roundtrips", 200);
     report.floor("shared_pointer_roundtrips", 400);
+    report.floor("raw_body_roundtrips", 30);
     report.floor("roundtrips_over_tcp", 300);
     report.floor("frames_that_must_be_refused", 5_000);
     report.floor("raw_posts", 500);
